@@ -74,6 +74,12 @@ func Walk(ctx context.Context, fileSystem fs.FS, prefix, delimiter, marker strin
 		return WalkResults{}, nil
 	}
 
+	// no key has an empty or a dot segment: a prefix whose directory part is
+	// not a valid path matches nothing (the file system would refuse it)
+	if !fs.ValidPath(root) {
+		return WalkResults{}, nil
+	}
+
 	err := fs.WalkDir(fileSystem, root, func(path string, d fs.DirEntry, err error) error {
 		if err != nil {
 			return err
